@@ -58,12 +58,14 @@ def iterator(
                     template=_key_template,
                     value=cached,
                 )
-                while True:
+                # the marker keeps the number of chunks of the cached run (True - written by older versions)
+                while cached is True or chunk_number < cached:
                     chunk = await backend.get(_cache_key + f":{chunk_number}", default=_empty)
                     if chunk is _empty:
                         return
                     yield return_or_raise(chunk)
                     chunk_number += 1
+                return
 
             start = time.monotonic()
             _to_cache = False
@@ -78,7 +80,7 @@ def iterator(
                     if cond_res and isinstance(cond_res, Exception):
                         _to_cache = True
                         await backend.set(_cache_key + f":{chunk_number}", RaiseException(exc), expire=_ttl)
-                        await backend.set(_cache_key, True, expire=_ttl - time.monotonic() + start)
+                        await backend.set(_cache_key, chunk_number + 1, expire=_ttl - time.monotonic() + start)
                     raise exc
                 yield chunk
                 if condition(chunk, args, kwargs, key=_cache_key):
@@ -87,7 +89,7 @@ def iterator(
                 chunk_number += 1
             if _to_cache:
                 executing_time = time.monotonic() - start
-                await backend.set(_cache_key, True, expire=_ttl - executing_time)
+                await backend.set(_cache_key, chunk_number, expire=_ttl - executing_time)
             return
 
         return _wrap  # type: ignore[return-value]
